@@ -172,6 +172,44 @@ class NpShim:
     def eye(n, *a, **k):
         return _to_obj(_np.eye(n, *a, **k))
 
+    # every other way NumPy offers to make a fresh FLOAT array that may later receive symbolic entries
+    @staticmethod
+    def full(shape, fill_value, dtype=None, *a, **k):
+        if _is_sym(fill_value):
+            out = _np.empty(shape, dtype=object)
+            out[...] = fill_value
+            return out
+        r = _np.full(shape, fill_value, dtype, *a, **k)
+        return _to_obj(r) if (dtype in (None, float) and r.dtype.kind == "f") else r
+
+    @staticmethod
+    def empty(shape, dtype=None, *a, **k):
+        r = _np.zeros(shape, dtype if dtype is not None else float, *a, **k)
+        return _to_obj(r) if dtype in (None, float) else r
+
+    @staticmethod
+    def identity(n, dtype=None):
+        r = _np.identity(n, dtype)
+        return _to_obj(r) if dtype in (None, float) else r
+
+    @staticmethod
+    def zeros_like(a, dtype=None, *aa, **k):
+        r = _np.zeros(_np.shape(a), dtype if dtype is not None else (float if getattr(a, "dtype", None) is None or a.dtype == object or a.dtype.kind == "f" else a.dtype))
+        return _to_obj(r) if r.dtype.kind == "f" else r
+
+    @staticmethod
+    def ones_like(a, dtype=None, *aa, **k):
+        r = _np.ones(_np.shape(a), dtype if dtype is not None else (float if getattr(a, "dtype", None) is None or a.dtype == object or a.dtype.kind == "f" else a.dtype))
+        return _to_obj(r) if r.dtype.kind == "f" else r
+
+    @staticmethod
+    def full_like(a, fill_value, dtype=None, *aa, **k):
+        return NpShim.full(_np.shape(a), fill_value, dtype)
+
+    @staticmethod
+    def empty_like(a, dtype=None, *aa, **k):
+        return NpShim.zeros_like(a, dtype)
+
     # ---- element-wise ----------------------------------------------------
     @staticmethod
     def minimum(a, b):
